@@ -37,9 +37,10 @@ theorem isObject_of_objectT {s : Schema} {m : String} (h : s.objectT m = true) (
   | some td =>
     rw [hfm] at h
     simp only at h
-    split at h
-    · cases h
-    · cases td <;> simp_all
+    by_cases hc : (isSpecScalarDef td && !(m == "String" || m == "Boolean" || s.referenced.contains m)) = true
+    · rw [if_pos hc] at h; cases h
+    · rw [if_neg hc] at h
+      cases td <;> simp_all
 
 theorem adm_of_cond {s : Schema} {rt : String} (hrt : s.isObject rt = true) {t : TypeRef} {m : String}
     (hn : namedOf s t = some m) (hc : Exec.condApplies s (some t) rt = true) : Adm s rt m := by
@@ -90,15 +91,15 @@ theorem ginv_add {U : FieldOcc → Prop} {rt : String} {g : Exec.Groups} (hg : G
   unfold Exec.Groups.add at hp'
   split at hp'
   · rcases List.mem_map.1 hp' with ⟨q, hq, rfl⟩
-    split at hn
-    · rename_i hk
-      simp only at hn ⊢
+    by_cases hk : (q.1 == f.key) = true
+    · simp only [hk, if_true] at hn ⊢
       rcases List.mem_append.1 hn with hn | hn
       · exact hg q hq n hn
       · simp only [List.mem_singleton] at hn
         subst hn
         exact ⟨(by simpa using hk : q.1 = n.key).symm, a, hr, hu, hp⟩
-    · exact hg q hq n hn
+    · simp only [hk, if_false] at hn ⊢
+      exact hg q hq n hn
   · rcases List.mem_append.1 hp' with hp' | hp'
     · exact hg p hp' n hn
     · simp only [List.mem_singleton] at hp'
